@@ -127,7 +127,8 @@ ClassOK(tok, triple) ==
 TokensOfLine(toks, ln) == SelectSeq(toks, LAMBDA t : t.line = ln)
 Covered(lt) == UNION {(lt[i].col + 1)..(lt[i].col + Len(lt[i].text)) : i \in DOMAIN lt}
 TilesLine(s, lt) ==
-    /\ \A i \in DOMAIN lt : Len(lt[i].text) >= 1 /\ SubSeq(s, lt[i].col + 1, lt[i].col + Len(lt[i].text)) = lt[i].text
+    /\ \A i \in DOMAIN lt : Len(lt[i].text) >= 1 /\ lt[i].col >= 0 /\ lt[i].col + Len(lt[i].text) <= Len(s)
+                                /\ SubSeq(s, lt[i].col + 1, lt[i].col + Len(lt[i].text)) = lt[i].text
     /\ \A i \in 1..(Len(lt) - 1) : lt[i].col + Len(lt[i].text) <= lt[i + 1].col
     /\ \A p \in (1..Len(s)) \ Covered(lt) : Ch(s, p) \in Blanks
 =============================================================================
